@@ -263,7 +263,88 @@ def static():
     emit("Static", B)
 
 
-FAMILIES = {"Static": static, "Pbkdf": pbkdf, "DesBcrypt": desbcrypt}
+def inst_custom(name, inst, pfx, hterm, inner, extra=(), nul=False, binders="", config=True):
+    """an `Inst` (Model/VerifyFmt/Wrap.lean) around a class with its own `verify`: `inner` = prefix of that class's C08 theorems
+    (inner_verify_total, inner_altered_checksum_rejected, inner_same_parse_same_answer, inner_config_string_value_error)"""
+    b = (binders + " ") if binders else ""
+    a = argnames(binders)
+    ex = lst(extra)
+    nulS = "true" if nul else "false"
+    I = f"({inst})" if " " in inst else inst
+    H = f"({hterm})"
+    o = []
+    w = o.append
+    w(f"/-! ### {name} (PrefixWrapper around a class with its own `verify`) -/")
+    w(f"theorem {name}_verify_total {b}(s : Secret) (hs : Str) : Total {ex} {nulS} ({I}.wVerify s hs) := by\n"
+      f"  rw [Inst_wVerify_eq]; exact unwrap_total _ _ (fun s u => {inner}_verify_total {a}s u) s hs")
+    w(f"theorem {name}_no_internal_error {b}(s : Secret) (hs : Str) (e : ErrKind) (h1 : e ≠ .valueError) (h2 : e ≠ .sizeError)\n"
+      f"    (h3 : e ≠ .nullError) (h4 : e ∉ ({ex} : List ErrKind)) : {I}.wVerify s hs ≠ .error e :=\n"
+      f"  ({name}_verify_total {a}s hs).not_other e h1 h2 h3 h4")
+    w(f"theorem {name}_no_prefix_value_error {b}(s : Secret) (hs : Str) (hu : unwrapOf {pfx} [] hs = none) :\n"
+      f"    {I}.wVerify s hs = .error .valueError := wVerify_no_prefix {I} s hs hu")
+    w(f"theorem {name}_altered_checksum_rejected {b}(s : Secret) (hs hs' u u' : Str) (p : Parsed) (c c' : Str)\n"
+      f"    (hu : unwrapOf {pfx} [] hs = some u) (hu' : unwrapOf {pfx} [] hs' = some u')\n"
+      f"    (hp : {H}.parse u = .ok {{ p with checksum := some c }}) (hp' : {H}.parse u' = .ok {{ p with checksum := some c' }})\n"
+      f"    (hne : c' ≠ c) (hv : {I}.wVerify s hs = .ok true) : {I}.wVerify s hs' = .ok false := by\n"
+      f"  rw [wVerify_of_unwrap {I} s hs u hu] at hv; rw [wVerify_of_unwrap {I} s hs' u' hu']\n"
+      f"  exact {inner}_altered_checksum_rejected {a}s u u' p c c' hp hp' hne hv")
+    w(f"theorem {name}_same_parse_same_answer {b}(s : Secret) (h1 h2 u1 u2 : Str) (hu1 : unwrapOf {pfx} [] h1 = some u1)\n"
+      f"    (hu2 : unwrapOf {pfx} [] h2 = some u2) (hp : {H}.parse u1 = {H}.parse u2) : {I}.wVerify s h1 = {I}.wVerify s h2 := by\n"
+      f"  rw [wVerify_of_unwrap {I} s h1 u1 hu1, wVerify_of_unwrap {I} s h2 u2 hu2]\n"
+      f"  exact {inner}_same_parse_same_answer {a}s u1 u2 hp")
+    if config:
+        w(f"theorem {name}_config_string_value_error {b}(s : Secret) (hs u : Str) (p : Parsed) (hl : s.len ≤ MAX_PASSWORD_SIZE)\n"
+          f"    (hu : unwrapOf {pfx} [] hs = some u) (hp : {H}.parse u = .ok p) (hc : p.checksum = none) :\n"
+          f"    {I}.wVerify s hs = .error .valueError := by\n"
+          f"  rw [wVerify_of_unwrap {I} s hs u hu]; exact {inner}_config_string_value_error {a}s u p hl hp hc")
+    return "\n".join(o) + "\n"
+
+
+# ------------------------------------------------------------------ Wrap
+def wrapfam():
+    B = []
+    def ofh(name, inst, pfx, orig, inner, facts, **k):
+        I = f"({inst})" if " " in inst else inst
+        return wrapper(name, f"{I}.wVerify", f"unwrapOf {pfx} {orig}", inner, facts, "Inst_wVerify_eq", **k)
+    B.append(ofh("ldap_des_crypt", "ldap_des_cryptI te", "CRYPT", "[]", "desHasher te", "(des_crypt_facts te)", nul=True, binders="(te : Bool)"))
+    B.append(ofh("ldap_bsdi_crypt", "ldap_bsdi_cryptI", "CRYPT", "[]", "bsdiHasher", "bsdi_crypt_facts", nul=True))
+    B.append(ofh("ldap_sha1_crypt", "ldap_sha1_cryptI", "CRYPT", "[]", "sha1CryptHasher", "sha1_crypt_facts", nul=True))
+    B.append(ofh("ldap_md5_crypt", "ldap_md5_cryptI", "CRYPT", "[]", "md5Hasher false", "(md5_crypt_facts false)", nul=True))
+    B.append(ofh("ldap_sha256_crypt", "ldap_sha256_cryptI", "CRYPT", "[]", "sha256Hasher", "sha256_crypt_facts", nul=True))
+    B.append(ofh("ldap_sha512_crypt", "ldap_sha512_cryptI", "CRYPT", "[]", "sha512Hasher", "sha512_crypt_facts", nul=True))
+    B.append(ofh("bsd_nthash", "bsd_nthashI", "BSD_NT", "[]", "nthashHasher", "nthash_facts", config=False))
+    B.append(ofh("ldap_hex_md5", "ldap_hex_md5I", "LDAP_MD5", "[]", "hex_md5Hasher", "(hex_facts hex_md5 Spec.MD5.md5)", config=False))
+    B.append(ofh("ldap_hex_sha1", "ldap_hex_sha1I", "LDAP_SHA", "[]", "hex_sha1Hasher", "(hex_facts hex_sha1 Spec.SHA1.sha1)", config=False))
+    for a in ("sha1", "sha256", "sha512"):
+        A = a.upper()
+        B.append(ofh(f"ldap_pbkdf2_{a}", f"ldap_pbkdf2_{a}I", f"LDAP_PBKDF2_{A}_PREFIX", f"PBKDF2_{A}_IDENT", f"pbkdf2_{a}Hasher",
+                     f"pbkdf2_{a}_facts", extra=["typeError"]))
+    BC = "Props.C08Families.DesBcrypt.bcrypt"
+    B.append(inst_custom("ldap_bcrypt", "ldap_bcryptI te", "CRYPT", "bcryptHasher te", BC, nul=True, binders="(te : Bool)"))
+    B.append(inst_custom("django_bcrypt", "django_bcryptI te", "DJANGO_BCRYPT_PREFIX", "bcryptHasher te", BC, nul=True, binders="(te : Bool)"))
+    emit("Wrap", B)
+
+
+# ------------------------------------------------------------------ Misc
+def misc():
+    B = []
+    B.append(hasher("fshp", "fshpHasher", "fshp_facts", config=False,
+                    settings=[("", "(v : Nat) (hv : v < 4) (salt : Bytes) (hsalt : Bytes.WF salt) (r : Nat) (hr : 1 ≤ r ∧ r ≤ 4294967295)",
+                               "fshpSettings v salt r", "fshp_roundtrips v hv salt hsalt r hr")]))
+    B.append(hasher("scrypt", "scryptHasher", "scrypt_facts", extra=["typeError"],
+                    settings=[("", "(i7 : Bool) (salt : Bytes) (hsalt : ScryptSaltOK i7 salt) (logN r p : Nat) (hc : ScryptCost logN r p)",
+                               "scryptSettings i7 salt logN r p", "scrypt_roundtrips_both i7 salt hsalt logN r p hc")]))
+    emit("Misc", B)
+
+
+# ------------------------------------------------------------------ bcrypt_sha256, full (closes the `_partial` of DesBcrypt)
+def bcrypt_sha256():
+    BS = "(version : Nat) (ident salt : Str) (rounds : Nat) (hv : BsVersionOk version ident) (hsalt : BcCanon 22 salt) (hr : 4 ≤ rounds ∧ rounds ≤ 31)"
+    emit("BcryptSha256", [hasher("bcrypt_sha256", "bcryptSha256Hasher", "bcrypt_sha256_facts",
+         settings=[("", BS, "bcryptSha256Settings version ident salt rounds", "bcrypt_sha256_roundtrips version ident salt rounds hv hsalt hr")])])
+
+
+FAMILIES = {"BcryptSha256": bcrypt_sha256, "Misc": misc, "Wrap": wrapfam, "Static": static, "Pbkdf": pbkdf, "DesBcrypt": desbcrypt}
 
 if __name__ == "__main__":
     for k, f in FAMILIES.items():
